@@ -12,6 +12,7 @@ mod c11;
 mod c12;
 mod c13;
 mod c14;
+mod c15;
 mod c16;
 mod c17;
 mod eng;
@@ -36,6 +37,9 @@ fn main() {
     }
     if args[1] == "--c12-digest" {
         std::process::exit(c12::digest_child());
+    }
+    if args[1] == "--c15-table" {
+        std::process::exit(c15::table_child(args.get(2).map(|s| s == "thorough").unwrap_or(false)));
     }
     if args[1] == "universe" {
         let level: u8 = args.get(2).and_then(|x| x.parse().ok()).unwrap_or(0);
@@ -85,6 +89,7 @@ fn main() {
         "C12" => c12::run(tier),
         "C13" => c13::run(tier),
         "C14" => c14::run(tier),
+        "C15" => c15::run(tier),
         "C16" => c16::run(tier),
         "C17" => c17::run(tier),
         x => {
